@@ -70,6 +70,10 @@ class ReorderCoverage(ReorderRule):
 
     def apply(self, font: ttLib.TTFont, value: otBase.BaseTable) -> None:
         coverage = _get_dotted_attr(value, self.coverage_attr)
+        if coverage is None:
+            # an optional coverage with a NULL offset, e.g.
+            # MathVariants.HorizGlyphCoverage when there are only vertical variants
+            return
 
         if type(coverage) is not list:
             # Normal path, process one coverage that might have a parallel list
